@@ -82,7 +82,7 @@ class _P:
                     return d
                 _, name = self.next()
                 self.next()  # :=
-                d[name] = self.term()
+                d[name.split('.')[-1]] = self.term()      # field names may be printed qualified (Dec.coef)
                 k3, v3 = self.peek()
                 if k3 == 'punct' and v3 == ';':
                     self.next()
